@@ -21,7 +21,7 @@ import dlib  # noqa: E402
 from traits.api import Any, CInt, HasTraits, Instance, Int, List, TraitError, TraitType, Undefined  # noqa: E402
 from traits.trait_list_object import TraitList, TraitListObject  # noqa: E402
 
-EXN = ["IndexError", "ValueError", "TraitError", "TypeError"]
+EXN = ["IndexError", "ValueError", "TraitError", "TypeError", "OverflowError"]
 M61 = 2305843009213693951
 
 
@@ -435,7 +435,7 @@ def run_case(case):
 
 
 # ---- canonical integer encoding of an observation (same as C05/Corr.v enc_obs) ----
-ECODE = {"Ok": 0, "IndexError": 1, "ValueError": 2, "TraitError": 3, "TypeError": 4, "OtherError": 5}
+ECODE = {"Ok": 0, "IndexError": 1, "ValueError": 2, "TraitError": 3, "TypeError": 4, "OtherError": 5, "OverflowError": 6}
 
 
 def enc_obs(ob):
